@@ -541,10 +541,11 @@ Array<int> String::chars() const
 
 void String::assign(const char* b, int n)
 {
-	resize(n, false);
+	resize(n, false, false); // no terminator yet: b may be a piece of this string
 	char* s = str();
-	memcpy(s, b, _len);
-	s[_len] = '\0';
+	memmove(s, b, n);
+	s[n] = '\0';
+	_len = n;
 }
 
 String String::concat(const char* b, int n) const
